@@ -181,9 +181,23 @@ def analyse(P, R, key, cap_attr, thr_attr, mstep_names, rule="LOOP"):
     brk = brks[0]
     g = [(t, pol) for t, pol in guards_of(brk, stop=loop) if pol is True or pol is False]
     conds = []
+
+    def _is_thr(e, depth=0):
+        """`self.<threshold>` itself, or a local bound once (outside the loop) to it"""
+        if _self_attr(e, me) and e.attr == thr_attr:
+            return True
+        if isinstance(e, ast.Name) and depth < 3:
+            rd_ = [d for d in du.reaching(loop, e.id) if not _inside(d.stmt, loop)]
+            inner_ = [d for d in du.all_defs(e.id) if _inside(d.stmt, loop)] if hasattr(du, "all_defs") else []
+            return len(rd_) == 1 and not inner_ and rd_[0].how == "assign" and rd_[0].value is not None and _is_thr(rd_[0].value, depth + 1)
+        return False
+
+    from ..dataflow import resolve_name as _rn_loop
     for t, pol in g:
         if t is loop.test if isinstance(loop, ast.While) else False:
             continue
+        if isinstance(t, ast.Name):
+            t = _rn_loop(du, t, du.stmt_of(brk) if False else [s_ for s_ in walk_no_nested(loop) if isinstance(s_, ast.If) and s_.test is t][0] if any(isinstance(s_, ast.If) and s_.test is t for s_ in walk_no_nested(loop)) else brk)[0]  # `converged = ...; if converged: break`
         parts = t.values if isinstance(t, ast.BoolOp) and isinstance(t.op, ast.And) and pol else [t]
         for p_ in parts:
             conds.append((p_, pol))
@@ -193,11 +207,11 @@ def analyse(P, R, key, cap_attr, thr_attr, mstep_names, rule="LOOP"):
     for c, pol in conds:
         if isinstance(c, ast.Compare) and len(c.ops) == 1:
             l, op, r = c.left, c.ops[0], c.comparators[0]
-            if _self_attr(l, me) and l.attr == thr_attr and isinstance(op, ast.IsNot) and const_value(r) is None and pol:
+            if _is_thr(l) and isinstance(op, ast.IsNot) and const_value(r) is None and pol:
                 thr_notnone = True
-            elif _self_attr(r, me) and r.attr == thr_attr and pol:
+            elif _is_thr(r) and pol:
                 thr_cmp = (c, l, op)
-            elif _self_attr(l, me) and l.attr == thr_attr and pol:
+            elif _is_thr(l) and pol:
                 # thr >= value
                 flip = {ast.GtE: ast.LtE(), ast.Gt: ast.Lt(), ast.LtE: ast.GtE(), ast.Lt: ast.Gt()}
                 thr_cmp = (c, r, flip.get(type(op), op))
